@@ -72,7 +72,7 @@ def gen_cases(ctx, corpus, quick):
         for g in (0, 1, 2):
             cases.append((cc.w2x_line(b, gen=g, indent=2), "fuzzfile"))
     # mutations of corpus documents (truncated, flipped, over-long fields …)
-    for _ in range(4000 if quick else 200000):
+    for _ in range(4000 if quick else 40000):
         d = rng.choice(docs)
         for _ in range(rng.range(1, 3)):
             d = cc.mutate(rng, d)
@@ -82,7 +82,7 @@ def gen_cases(ctx, corpus, quick):
         for k in range(len(d)):
             cases.append((cc.w2x_line(d[:k], gen=rng.below(3), indent=1), "prefix"))
     # random bytes, with and without a plausible header
-    for _ in range(1500 if quick else 50000):
+    for _ in range(1500 if quick else 15000):
         b = rng.bytes(rng.range(1, 60))
         if rng.chance(1, 2):
             b = bytes([rng.below(4), rng.choice([1, 2, 4, 0x0a, 0x0b, 0x0f, 0x10, 0x11, 0x12]), rng.choice([3, 106, 4]), 0]) + b
@@ -153,7 +153,7 @@ def run(ctx):
     heavy = [i for i, c in enumerate(cases) if c[1] in ("deep", "indent-product", "wide", "strtbl-blowup", "replay", "kept")]
     light = [i for i in range(len(cases)) if i not in set(heavy)]
     answers = [None] * len(cases)
-    la, lcr = common.run_lines(harness, [lines[i] for i in light], timeout=900)
+    la, lcr = common.run_lines(harness, [lines[i] for i in light], timeout=(900 if quick else 3000))
     for i, a in zip(light, la):
         answers[i] = a
     ha, hcr = common.run_lines(harness, [lines[i] for i in heavy], shards=max(1, len(heavy)), timeout=120)
